@@ -22,7 +22,17 @@ class CaseTimeout(Exception):
     pass
 
 
+_FIRED = [0]
+
+
 def _alarm(signum, frame):
+    # The exception is lost when the signal lands inside a native callback (Gurobi's log
+    # callback swallows it), so the alarm re-arms itself; if it keeps being swallowed the
+    # worker kills itself and the runner resumes after the case (recorded as an error).
+    _FIRED[0] += 1
+    if _FIRED[0] >= 5:
+        os.kill(os.getpid(), signal.SIGKILL)
+    signal.alarm(3)
     raise CaseTimeout('case watchdog fired')
 
 
@@ -163,6 +173,7 @@ def main():
             if spec is None:
                 rng = np.random.default_rng([a.seed, pnum, idx])
                 spec = mod.gen_case(rng, idx, a.tier)
+            _FIRED[0] = 0
             signal.alarm(case_timeout)
             try:
                 res = mod.run_case(spec, ctx)
